@@ -86,6 +86,9 @@ pub fn scenario(run: u64, rng: &mut SmallRng) {
     let net = nb.build();
     let nm = rng.gen_range(2..=6usize);
     let loss = [0u32, 0, 30, 60, 85][rng.gen_range(0..5)];
+    // in a fifth of the runs the plan is exact instead of random: of the requests that one machine sends for one
+    // address only the k-th gets through (k = 1..10, often the last of the retry budget; 11 = none); replies pass
+    let only_kth: u32 = if rng.gen_range(0..5) == 0 { [1u32, 2, 9, 10, 10, 10, 11][rng.gen_range(0..7)] } else { 0 };
     // machine k owns 10.k.0.1 and (sometimes) 10.k.0.2; subnets are byte aligned
     let addr = |k: usize, j: u8| -> [u8; 4] { [10, k as u8, 0, j] };
     let mut claims: Vec<Vec<[u8; 4]>> = vec![];
@@ -122,7 +125,7 @@ pub fn scenario(run: u64, rng: &mut SmallRng) {
         calls[m].push(Call { at_us: [0u64, 0, 0, 150_000, 1_900_000, 2_100_000, 500_000][rng.gen_range(0..7)], rid, local: addr(m, 1), remote });
     }
     let sj: Vec<Value> = subnets.iter().map(|s| match s { Some((m, g)) => json!({"set":true,"mask":m,"gw":g}), None => json!({"set":false,"mask":0,"gw":[0,0,0,0]}) }).collect();
-    begin_run(run, json!({"nm":nm,"lat":lat,"loss":loss,"subnets":sj}));
+    begin_run(run, json!({"nm":nm,"lat":lat,"loss":loss,"only_kth":only_kth,"subnets":sj}));
     let machines: Vec<Arc<Machine>> = (0..nm)
         .map(|k| {
             let mut arp = Arp::new();
@@ -137,12 +140,24 @@ pub fn scenario(run: u64, rng: &mut SmallRng) {
         })
         .collect();
     let plan = Mutex::new(SmallRng::seed_from_u64(rng.gen()));
+    let counts: Mutex<std::collections::HashMap<(u64, [u8; 4]), u32>> = Default::default();
     elvis_core::network::verif::set_frame_hook(Some(Arc::new(move |f: &elvis_core::network::verif::FrameInfo| {
         if f.protocol != TypeId::of::<Arp>() || f.bytes.len() < 28 {
             return vec![Duration::ZERO];
         }
-        let dropped = plan.lock().unwrap().gen_range(0..100) < loss;
         let b = &f.bytes;
+        let dropped = if only_kth > 0 {
+            if b[7] == 1 {
+                let mut c = counts.lock().unwrap();
+                let n = c.entry((f.sender, [b[24], b[25], b[26], b[27]])).or_insert(0);
+                *n += 1;
+                *n != only_kth
+            } else {
+                false
+            }
+        } else {
+            plan.lock().unwrap().gen_range(0..100) < loss
+        };
         emit(json!({"ev":"arpwire","oper":b[7],"smac":f.sender,"sip":[b[14],b[15],b[16],b[17]],"tip":[b[24],b[25],b[26],b[27]],
                     "dst":f.destination.map(|d| if d > 1000 { -2 } else { d as i64 }).unwrap_or(-1),"delivered":!dropped}));
         if dropped {
